@@ -219,7 +219,7 @@ PROPS = {
                    'correctness of the minimisation model); this does not weaken the check on the real automata, which does not go through '
                    'the model.',
         technique='Rocq proof (trie/union/minimise models) + proved automaton-vs-lookahead-set checker on the real generated automata',
-        streams=[dict(cmd='c07', quick=700, thorough=30000)],
+        streams=[dict(cmd='c07', quick=2000, thorough=30000)],
         rule='grammars shaped like the unite-k witness (T: | A | B with depth 2-4), grammars needing exactly k = 1..4 tokens, random clean BNF '
              'grammars, K in 1..5; a case = one grammar with all its automata; non-trivial = all automata exact and one has >= 3 '
              'transitions; distinct = distinct case text',
